@@ -207,5 +207,6 @@ pub fn run(o: &Opts) -> Report {
     }
     crate::pcorr::run_generic(&mut rep, o, 0xC10);
     crate::usage::run_err(&mut rep, o);
+    crate::usage::run_conflict(&mut rep, o);
     rep
 }
